@@ -16,12 +16,14 @@ import (
 // name, implicitly as the default task, or as the user-defined clean task of `--clean`.
 type GraphBinCase struct {
 	// ProjDir names the directory holding the spokfile ("" = proj)
-	ProjDir string   `json:"proj_dir,omitempty"`
-	N       int      `json:"n"`
-	Edges   [][2]int `json:"edges"` // i depends on j
-	Via     string   `json:"via"`   // name default clean
-	Undef   int      `json:"undef"` // task that also depends on an undefined name (-1: none)
-	Flags   []string `json:"flags"`
+	ProjDir string `json:"proj_dir,omitempty"`
+	// Invoke: how spok is pointed at the project (sandbox.Box.Invoke)
+	Invoke string   `json:"invoke,omitempty"`
+	N      int      `json:"n"`
+	Edges  [][2]int `json:"edges"` // i depends on j
+	Via    string   `json:"via"`   // name default clean
+	Undef  int      `json:"undef"` // task that also depends on an undefined name (-1: none)
+	Flags  []string `json:"flags"`
 	// Req (Via == "name" only): the tasks named on the command line, in order, repeats allowed
 	// (empty = just task 0); ReqUndef > 0 puts an undefined name at position ReqUndef-1 of that list
 	Req      []int `json:"req,omitempty"`
@@ -57,6 +59,7 @@ func (c GraphBinCase) source() string {
 func genGraphBin(t *rapid.T) GraphBinCase {
 	c := genGraphBinBody(t)
 	c.ProjDir = genProjDir(t)
+	c.Invoke = genInvoke(t)
 	return c
 }
 
@@ -92,7 +95,7 @@ func genGraphBinBody(t *rapid.T) GraphBinCase {
 }
 
 func execGraphBin(s *ev.Shard, b *sandbox.Box, c GraphBinCase) *rp.Fail {
-	if err := b.ResetAs(c.ProjDir); err != nil {
+	if err := b.ResetFor(c.ProjDir, c.Invoke); err != nil {
 		return &rp.Fail{Sig: "harness", Msg: err.Error()}
 	}
 	src := c.source()
